@@ -189,4 +189,295 @@ theorem date_len (a b : Int) :
   unfold dateNew DAY
   refine ⟨by simp, ?_, ?_⟩ <;> by_cases c : a > b <;> simp [c] <;> omega
 
+/-! ### naive pairs (both endpoints carry tzinfo `None`: one shared "object", `same = true`) -/
+
+/-- two naive values: the interval never fails, its length is the plain difference of the wall clocks (which ARE the
+    instants); `absolute=True` gives the magnitude, never negative — no F12 region, wall order = instant order -/
+theorem naive_len (a b : V) (ha : a.z = .naive) (hb : b.z = .naive) :
+    new a b true false = .ok (b.w - a.w) ∧
+    new a b true true = .ok (if a.w > b.w then a.w - b.w else b.w - a.w) ∧
+    0 ≤ (if a.w > b.w then a.w - b.w else b.w - a.w) ∧
+    a.instant = a.w ∧ b.instant = b.w := by
+  refine ⟨?_, ?_, ?_, naive_instant a ha, naive_instant b hb⟩
+  · unfold new
+    simp only [Bool.false_and, Bool.false_eq_true, if_false]
+    exact naive_delta a b ha hb
+  · unfold new gt
+    simp only [Bool.true_and, if_true]
+    by_cases c : a.w > b.w
+    · simp only [c, decide_true, if_true]; exact naive_delta b a hb ha
+    · simp only [c, decide_false, Bool.false_eq_true, if_false]; exact naive_delta a b ha hb
+  · by_cases c : a.w > b.w <;> simp only [c, if_true, if_false] <;> omega
+
+example : lenOf (new ⟨.naive, 1577919600000000, false⟩ ⟨.naive, 1577926800000000, true⟩ true false) = some 7200000000 ∧
+    lenOf (new ⟨.naive, 1577926800000000, true⟩ ⟨.naive, 1577919600000000, false⟩ true true) = some 7200000000 := by
+  decide +kernel
+
+/-- naive pairs: swapping the endpoints negates the length -/
+theorem naive_swap_neg (a b : V) (ha : a.z = .naive) (hb : b.z = .naive) :
+    new b a true false = .ok (-(b.w - a.w)) ∧
+    (∀ r, new a b true false = .ok r → new b a true false = .ok (-r)) := by
+  have h1 := (naive_len a b ha hb).1
+  have h2 := (naive_len b a hb ha).1
+  refine ⟨?_, ?_⟩
+  · rw [h2]; congr 1; omega
+  · intro r h
+    rw [h1] at h
+    simp only [Except.ok.injEq] at h
+    rw [h2, ← h]; congr 1; omega
+
+example : lenOf (new ⟨.naive, 1577926800000000, true⟩ ⟨.naive, 1577919600000000, false⟩ true false) = some (-7200000000) := by
+  decide +kernel
+
+/-- naive pairs: with `absolute=True` the order of the arguments does not matter -/
+theorem naive_abs_symm (a b : V) (ha : a.z = .naive) (hb : b.z = .naive) :
+    new a b true true = new b a true true := by
+  rw [(naive_len a b ha hb).2.1, (naive_len b a hb ha).2.1]
+  congr 1
+  by_cases c : a.w > b.w <;> by_cases d : b.w > a.w <;> simp only [c, d, if_true, if_false] <;> omega
+
+example : lenOf (new ⟨.naive, 5, false⟩ ⟨.naive, -7, true⟩ true true) = some 12 ∧
+    lenOf (new ⟨.naive, -7, true⟩ ⟨.naive, 5, false⟩ true true) = some 12 := by decide +kernel
+
+/-- naive pairs through the operator paths: `b - a`, `abs(b - a)`, `-(b - a)` -/
+theorem naive_paths (a b : V) (ha : a.z = .naive) (hb : b.z = .naive) :
+    sub b a true = .ok (b.w - a.w) ∧
+    negSub b a true = .ok (a.w - b.w) ∧
+    absSub b a true = .ok (if a.w > b.w then a.w - b.w else b.w - a.w) ∧
+    absSub b a true = absSub a b true ∧
+    diff a b true false = .ok (b.w - a.w) := by
+  unfold sub negSub absSub diff
+  refine ⟨(naive_len a b ha hb).1, ?_, (naive_len a b ha hb).2.1, naive_abs_symm a b ha hb, (naive_len a b ha hb).1⟩
+  rw [(naive_len b a hb ha).1]
+
+example : lenOf (sub ⟨.naive, 5, false⟩ ⟨.naive, -7, true⟩ true) = some 12 ∧
+    lenOf (negSub ⟨.naive, 5, false⟩ ⟨.naive, -7, true⟩ true) = some (-12) ∧
+    lenOf (absSub ⟨.naive, -7, false⟩ ⟨.naive, 5, true⟩ true) = some 12 := by decide +kernel
+
+/-! ### Date pairs -/
+
+/-- Date pairs: swapping the endpoints negates the length -/
+theorem date_swap_neg (a b : Int) : dateNew b a false = - dateNew a b false := by
+  unfold dateNew DAY
+  simp only [Bool.false_and, Bool.false_eq_true, if_false]; omega
+
+example : dateNew 18262 18293 false = 2678400000000 ∧ dateNew 18293 18262 false = -2678400000000 := by decide +kernel
+
+/-- Date pairs: with `absolute=True` the order of the arguments does not matter; the result is the magnitude of the
+    plain length -/
+theorem date_abs_symm (a b : Int) :
+    dateNew a b true = dateNew b a true ∧
+    dateNew a b true = (if dateNew a b false < 0 then - dateNew a b false else dateNew a b false) := by
+  rw [(date_len a b).1, (date_len a b).2.1, (date_len b a).2.1]
+  unfold DAY
+  constructor
+  · by_cases c : a > b <;> by_cases d : b > a <;> simp only [c, d, if_true, if_false] <;> omega
+  · by_cases c : a > b <;> simp only [c, if_true, if_false] <;> split <;> omega
+
+example : dateNew 18293 18262 true = 2678400000000 ∧ dateNew 18262 18293 true = 2678400000000 := by decide +kernel
+
+/-- Date pairs: the length is a whole number of days -/
+theorem date_whole_days (a b : Int) (ab : Bool) : dateNew a b ab % DAY = 0 := by
+  unfold dateNew DAY
+  split <;> omega
+
+example : dateNew (-5) 7 true % DAY = 0 ∧ dateNew (-5) 7 true ≠ 0 := by decide +kernel
+
+/-! ### `in_days()` / `in_weeks()`: calendar day counts -/
+
+/-- the literal model of `Interval.__init__` (swap when `start > end and absolute`) followed by `precise_diff`
+    (early zero, swap + sign) is the plain difference of the calendar days of the wall clocks; with `absolute` its
+    magnitude; swapping the endpoints negates it -/
+theorem in_days_plain (s e : V) :
+    inDays s e false = dayOf e.w - dayOf s.w ∧
+    inDays s e true = (if s.w > e.w then dayOf s.w - dayOf e.w else dayOf e.w - dayOf s.w) ∧
+    0 ≤ inDays s e true ∧
+    inDays e s false = - inDays s e false := by
+  have key : ∀ x y : V, inDays x y false = dayOf y.w - dayOf x.w := by
+    intro x y
+    unfold inDays initEnds
+    simp only [Bool.and_false, Bool.false_eq_true, if_false]
+    exact totalDays_plain _ _ _ _ (fun h => by rw [h])
+  have habs : inDays s e true = (if s.w > e.w then dayOf s.w - dayOf e.w else dayOf e.w - dayOf s.w) := by
+    unfold inDays initEnds gt
+    simp only [Bool.and_true, if_true]
+    by_cases c : s.w > e.w
+    · simp only [c, decide_true, if_true]
+      exact totalDays_plain _ _ _ _ (fun h => by rw [h])
+    · simp only [c, decide_false, Bool.false_eq_true, if_false]
+      exact totalDays_plain _ _ _ _ (fun h => by rw [h])
+  refine ⟨key s e, habs, ?_, ?_⟩
+  · rw [habs]
+    by_cases c : s.w > e.w
+    · simp only [c, if_true]; have := dayOf_mono e.w s.w (by omega); omega
+    · simp only [c, if_false]; have := dayOf_mono s.w e.w (by omega); omega
+  · rw [key e s, key s e]; omega
+
+example : inDays ⟨.naive, 1577919600000000, false⟩ ⟨.naive, 1580598000000000, false⟩ false = 31 ∧
+    inDays ⟨.naive, 1580598000000000, false⟩ ⟨.naive, 1577919600000000, false⟩ false = -31 ∧
+    inDays ⟨.naive, 1580598000000000, false⟩ ⟨.naive, 1577919600000000, false⟩ true = 31 := by decide +kernel
+
+/-- one tzinfo object across a transition: Paris 2013-10-26T23:30 (CEST) → 2013-10-27T23:30 (CET) is 25 h long and
+    `in_days() = 1`; 2013-10-27T00:30 → 02:30 second pass is 3 h long and `in_days() = 0` -/
+example : lenOf (new ⟨.named parisZ, 1382830200000000, false⟩ ⟨.named parisZ, 1382916600000000, false⟩ true false) = some 90000000000 ∧
+    inDays ⟨.named parisZ, 1382830200000000, false⟩ ⟨.named parisZ, 1382916600000000, false⟩ false = 1 ∧
+    lenOf (new ⟨.named parisZ, 1382833800000000, false⟩ ⟨.named parisZ, 1382841000000000, true⟩ true false) = some 10800000000 ∧
+    inDays ⟨.named parisZ, 1382833800000000, false⟩ ⟨.named parisZ, 1382841000000000, true⟩ false = 0 := by decide +kernel
+
+/-- Date pairs: `in_days()` is exactly the length counted in days -/
+theorem date_in_days_exact (a b : Int) (ab : Bool) :
+    dateInDays a b ab * DAY = dateNew a b ab ∧
+    dateInDays a b false = b - a ∧
+    dateInDays a b true = (if a > b then a - b else b - a) := by
+  have key : ∀ x y : Int, totalDays x y x y = y - x := fun x y => totalDays_plain x y x y (fun h => h)
+  have h0 : dateInDays a b false = b - a := by
+    unfold dateInDays
+    simp only [Bool.and_false, Bool.false_eq_true, if_false]; exact key a b
+  have h1 : dateInDays a b true = (if a > b then a - b else b - a) := by
+    unfold dateInDays
+    simp only [Bool.and_true]
+    by_cases c : a > b
+    · simp only [c, decide_true, if_true]; exact key b a
+    · simp only [c, decide_false, Bool.false_eq_true, if_false]; exact key a b
+  refine ⟨?_, h0, h1⟩
+  cases ab
+  · rw [h0, (date_len a b).1]
+  · rw [h1, (date_len a b).2.1]
+
+example : dateInDays 18293 18262 false = -31 ∧ dateInDays 18293 18262 true = 31 ∧
+    dateInDays 18293 18262 false * DAY = dateNew 18293 18262 false := by decide +kernel
+
+/-- `in_weeks()` is `in_days()` truncated toward zero to whole weeks -/
+theorem in_weeks_trunc (d : Int) :
+    inWeeks d = Int.tdiv d 7 ∧
+    (0 ≤ d → inWeeks d * 7 ≤ d ∧ d < (inWeeks d + 1) * 7) ∧
+    (d ≤ 0 → (inWeeks d - 1) * 7 < d ∧ d ≤ inWeeks d * 7) := by
+  have h : inWeeks d = Int.tdiv d 7 := by
+    unfold inWeeks
+    by_cases c : d < 0
+    · simp only [c, if_true]
+      rw [tdiv_nonpos d 7 (by omega)]; omega
+    · simp only [c, if_false]
+      rw [Int.tdiv_eq_ediv_of_nonneg (by omega)]; omega
+  refine ⟨h, ?_, ?_⟩
+  · intro hd; rw [h, Int.tdiv_eq_ediv_of_nonneg hd]; omega
+  · intro hd; rw [h, tdiv_nonpos d 7 hd]; omega
+
+example : inWeeks 13 = 1 ∧ inWeeks (-13) = -1 ∧ inWeeks 14 = 2 ∧ inWeeks (-6) = 0 := by decide +kernel
+
+/-- negating the day count negates the week count -/
+theorem in_weeks_neg (d : Int) : inWeeks (-d) = - inWeeks d := by
+  rw [(in_weeks_trunc (-d)).1, (in_weeks_trunc d).1]; exact Int.neg_tdiv _ _
+
+example : inWeeks (-(20)) = -2 ∧ inWeeks 20 = 2 := by decide +kernel
+
+/-- naive pair, non-negative length: `in_days()` (calendar days between the wall dates) is the length truncated to
+    whole days, or one more; it is the truncation exactly when the end's time of day is not before the start's -/
+theorem in_days_vs_truncation (s e : V) (hs : s.z = .naive) (he : e.z = .naive) (len : Int)
+    (h : new s e true false = .ok len) (hpos : 0 ≤ len) :
+    len = e.w - s.w ∧
+    Int.tdiv len DAY ≤ inDays s e false ∧ inDays s e false ≤ Int.tdiv len DAY + 1 ∧
+    (inDays s e false = Int.tdiv len DAY ↔ e.w % DAY ≥ s.w % DAY) := by
+  rw [(naive_len s e hs he).1] at h
+  simp only [Except.ok.injEq] at h
+  rw [(in_days_plain s e).1, Int.tdiv_eq_ediv_of_nonneg hpos, ← h]
+  unfold dayOf DAY
+  refine ⟨rfl, ?_, ?_, ?_⟩ <;> omega
+
+example : new ⟨.naive, 1577919600000000, false⟩ ⟨.naive, 1578006000000000 + 5, false⟩ true false = .ok 86400000005 ∧
+    inDays ⟨.naive, 1577919600000000, false⟩ ⟨.naive, 1578006000000000 + 5, false⟩ false = 1 := by
+  constructor
+  · rfl
+  · decide +kernel
+
+/-- naive pair, non-positive length: the mirror image -/
+theorem in_days_vs_truncation_neg (s e : V) (hs : s.z = .naive) (he : e.z = .naive) (len : Int)
+    (h : new s e true false = .ok len) (hneg : len ≤ 0) :
+    len = e.w - s.w ∧
+    Int.tdiv len DAY - 1 ≤ inDays s e false ∧ inDays s e false ≤ Int.tdiv len DAY ∧
+    (inDays s e false = Int.tdiv len DAY ↔ s.w % DAY ≥ e.w % DAY) := by
+  rw [(naive_len s e hs he).1] at h
+  simp only [Except.ok.injEq] at h
+  rw [(in_days_plain s e).1, tdiv_nonpos len DAY hneg, ← h]
+  unfold dayOf DAY
+  refine ⟨rfl, ?_, ?_, ?_⟩ <;> omega
+
+example : lenOf (new ⟨.naive, 1578006000000000, false⟩ ⟨.naive, 1577919600000000, false⟩ true false) = some (-86400000000) ∧
+    inDays ⟨.naive, 1578006000000000, false⟩ ⟨.naive, 1577919600000000, false⟩ false = -1 := by decide +kernel
+
+/-- `in_days()` is a CALENDAR count, not the elapsed time in days: 2020-01-01T23:00 → 2020-01-02T01:00 (naive) is a
+    2-hour interval with `in_days() = 1` (and `in_hours() = 2`) -/
+theorem in_days_calendar_not_truncation :
+    ∃ s e : V, s.z = .naive ∧ e.z = .naive ∧ new s e true false = .ok 7200000000 ∧
+      inHours 7200000000 = 2 ∧ Int.tdiv 7200000000 DAY = 0 ∧ inDays s e false = 1 :=
+  ⟨⟨.naive, 1577919600000000, false⟩, ⟨.naive, 1577926800000000, false⟩, rfl, rfl, rfl,
+    by decide +kernel, by decide +kernel, by decide +kernel⟩
+
+/-! ### `interval(a, b, absolute=True)` versus `interval(b, a, absolute=True)` -/
+
+/-- outside the wall-order region (F12) — the comparison the code uses agrees with the order of the instants — an
+    absolute interval has the same length whichever endpoint comes first (a failure of the same-object branch is
+    symmetric too: both orders shift both endpoints) -/
+theorem abs_symm_outside_wall_order (a b : V) (same : Bool) (r : Int)
+    (hord : same = true → ((a.w > b.w ↔ a.instant > b.instant) ∧ (b.w > a.w ↔ b.instant > a.instant)))
+    (h : new a b same true = .ok r) : new b a same true = .ok r := by
+  unfold new gt at h ⊢
+  simp only [Bool.true_and] at h ⊢
+  cases same
+  · simp only [Bool.false_eq_true, if_false] at h ⊢
+    by_cases c : a.instant > b.instant
+    · have d : ¬ b.instant > a.instant := by omega
+      simp only [c, d, decide_true, decide_false, if_true, Bool.false_eq_true, if_false] at h ⊢; exact h
+    · simp only [c, decide_false, Bool.false_eq_true, if_false] at h
+      by_cases d : b.instant > a.instant
+      · simp only [d, decide_true, if_true]; exact h
+      · simp only [d, decide_false, Bool.false_eq_true, if_false]
+        have e := delta_swap _ _ _ _ h
+        have : r = 0 := by have := delta_ok _ _ _ _ h; omega
+        rw [e]; congr 1; omega
+  · have ho := hord rfl
+    simp only [if_true] at h ⊢
+    by_cases c : a.w > b.w
+    · have d : ¬ b.w > a.w := by omega
+      simp only [c, d, decide_true, decide_false, if_true, Bool.false_eq_true, if_false] at h ⊢; exact h
+    · simp only [c, decide_false, Bool.false_eq_true, if_false] at h
+      by_cases d : b.w > a.w
+      · simp only [d, decide_true, if_true]; exact h
+      · simp only [d, decide_false, Bool.false_eq_true, if_false]
+        have e := delta_swap _ _ _ _ h
+        have c' : ¬ a.instant > b.instant := fun x => c (ho.1.mpr x)
+        have d' : ¬ b.instant > a.instant := fun x => d (ho.2.mpr x)
+        have : r = 0 := by have := delta_ok _ _ _ _ h; omega
+        rw [e]; congr 1; omega
+
+/-- Paris 2013-10-27 01:59:59 (CEST) and 03:00 (CET), one tzinfo object: 1 h 0 min 1 s apart in either order -/
+example : lenOf (new ⟨.named parisZ, 1382839199000000, false⟩ ⟨.named parisZ, 1382842800000000, false⟩ true true) = some 7201000000 ∧
+    lenOf (new ⟨.named parisZ, 1382842800000000, false⟩ ⟨.named parisZ, 1382839199000000, false⟩ true true) = some 7201000000 := by
+  decide +kernel
+
+/-- outside the wall-order region the absolute length is the magnitude of the plain length -/
+theorem abs_eq_abs_of_plain (a b : V) (same : Bool) (r r' : Int)
+    (hord : same = true → ((a.w > b.w ↔ a.instant > b.instant) ∧ (b.w > a.w ↔ b.instant > a.instant)))
+    (h : new a b same true = .ok r) (h' : new a b same false = .ok r') :
+    r = (if r' < 0 then -r' else r') := by
+  have hmag := (abs_magnitude_partial a b same r (fun x => (hord x).1) h).1
+  have hp : r' = b.instant - a.instant := by
+    unfold new at h'
+    simp only [Bool.false_and, Bool.false_eq_true, if_false] at h'
+    exact delta_ok _ _ _ _ h'
+  rw [hmag, hp]
+  by_cases c : a.instant > b.instant <;> simp only [c, if_true, if_false] <;> split <;> omega
+
+example : lenOf (new ⟨.named parisZ, 1382842800000000, false⟩ ⟨.named parisZ, 1382839199000000, false⟩ true false) = some (-7201000000) ∧
+    lenOf (new ⟨.named parisZ, 1382842800000000, false⟩ ⟨.named parisZ, 1382839199000000, false⟩ true true) = some 7201000000 := by
+  decide +kernel
+
+/-- F12, seen as an asymmetry: inside the region (both occurrences of Paris 2013-10-27 02:30 on one tzinfo object)
+    `interval(a, b, absolute=True)` and `interval(b, a, absolute=True)` differ (+1 h versus −1 h) -/
+theorem abs_symm_wall_order_counterexample :
+    ∃ (z : Z) (a b : V), z.WF ∧ a.z.table = some z ∧ b.z.table = some z ∧
+      lenOf (new a b true true) = some 3600000000 ∧ lenOf (new b a true true) = some (-3600000000) :=
+  ⟨parisZ, ⟨.named parisZ, 1382841000000000, false⟩, ⟨.named parisZ, 1382841000000000, true⟩,
+    parisZ_wf, rfl, rfl, by decide +kernel, by decide +kernel⟩
+
 end Pendulum.Props.C05
